@@ -77,6 +77,10 @@ def check_dims(ctx, script, out, inp, case):
     return ok
 
 
+# station identifiers beyond 2**24 (region + station codes): not representable in single precision
+BIG_POOL = gen.LOC_POOL + [[47110015, 59.5, 9.75, 0.0], [16777217, 61.25, 11.0, 250.0], [20000003, 70.0, -20.0, 1200.5], [99999999, -33.5, 151.25, 12.0]]
+
+
 def check_locs(ctx, script, out, ids, locmeta, case):
     import numpy as np
     for j, i in enumerate(out["location"].tolist()):
@@ -195,7 +199,7 @@ def run_accumulate(desc, ctx):
         nt, nl, ns = rng.randint(2, 6), rng.randint(2, 7), rng.randint(1, 3)
         times = times_before_2038(rng, nt)
         leads = sorted(rng.sample(range(0, 49), nl))
-        inp = gen.make_input(rng, "in", "nc", times, leads, rng.sample(gen.LOC_POOL, ns), miss=rng.choice([0.0, 0.1, 0.25]), vrange=(0, 9))
+        inp = gen.make_input(rng, "in", "nc", times, leads, rng.sample(BIG_POOL, ns), miss=rng.choice([0.0, 0.1, 0.25]), vrange=(0, 9))
         d = os.path.join(ctx.workdir, "a%d" % ci)
         os.makedirs(d)
         for rep in range(4):
@@ -230,7 +234,7 @@ def run_ens2prob(desc, ctx):
         M = rng.randint(1, 7)
         times = times_before_2038(rng, rng.randint(1, 4))
         leads = sorted(rng.sample([0, 6, 12, 18, 24, 36, 48], rng.randint(1, 4)))
-        locs = rng.sample(gen.LOC_POOL, rng.randint(1, 3))
+        locs = rng.sample(BIG_POOL, rng.randint(1, 3))
         inp = gen.make_input(rng, "in", "nc", times, leads, locs, members=M, miss=rng.choice([0.0, 0.1, 0.2]), vrange=(0, 12),
                              integerish=rng.random() < 0.5)
         fmt = rng.choice(["nc", "text"])
@@ -332,7 +336,7 @@ def run_expandverif(desc, ctx):
             # observation times a quarter of an hour apart: a requested time must match exactly, not "nearly"
             leads = sorted(set(leads + rng.sample([0.25, 0.5, 0.75, 1, 1.5, 2.75, 3.25], rng.randint(2, 5))))
             ctx.count("expandverif_subhourly_runs")
-        locs = rng.sample(gen.LOC_POOL, rng.randint(1, 3))
+        locs = rng.sample(BIG_POOL, rng.randint(1, 3))
         inp = gen.make_input(rng, "in", "nc", times, leads, locs, miss=0.0, vrange=(0, 20))
         # observations are a function of valid time and location
         truth = {}
